@@ -1,5 +1,5 @@
 //! area `args`: FluentArgs op sequences (C11)
-use crate::util::*;
+use fvh::util::*;
 use fluent::fluent_args;
 use fluent_bundle::{FluentArgs, FluentValue};
 
@@ -56,7 +56,7 @@ fn via_macro<'a>(ps: &'a [(String, Tok)]) -> Option<FluentArgs<'a>> {
     })
 }
 
-pub fn run(payload: &str) -> String {
+fn run(payload: &str) -> String {
     let ops: Vec<Option<Op>> = payload.split(';').map(parse_op).collect();
     let mut args: FluentArgs = FluentArgs::new();
     let mut outs: Vec<String> = vec![];
@@ -108,4 +108,8 @@ pub fn run(payload: &str) -> String {
         outs.push(o);
     }
     outs.join(";")
+}
+
+fn main() {
+    fvh::run_main(run);
 }
